@@ -192,7 +192,8 @@ CHECKS["C14"] = dict(
     text="Theorems: purge removes every entry of the indicator tree at any depth and nothing else (timestamps, OHLCV, other entries "
          "untouched); for leaf indicators with discharged obligations calculate() is idempotent, recalculate() reproduces the store "
          "it replaced, calculate_index on a computed index (+/-) leaves the store unchanged, and every program over append/calculate/"
-         "purge/recalculate/such recomputations ends in a state on which calculate() equals one calculate() over all candles appended. " + ENGINE_TIE +
+         "purge/recalculate/such recomputations ends in a state on which calculate() equals one calculate() over all candles appended; "
+         "calculate() is idempotent for the composite ATR as well. " + ENGINE_TIE +
          "(incl. calculate/calculate_index/recalculate/purge sequences; every operation program also runs on the Hexital model, check_hx). Falsifier: idempotence, recalculate fixpoint, purge exactness, calculate_index "
          "on computed indices (+/-), and random programs over append/calculate/purge/recalculate/calculate_index/add/remove on Hexitals "
          "(also members sharing helpers) ending in calculate() = batch state.",
